@@ -115,7 +115,11 @@ def _install_interceptors():
             r = orig_ls(*a, **k)
         finally:
             act.in_ls -= 1
-        act.ls_log.append((ev0, act.n_events, None if r is None else float(r)))
+        try:
+            dn = float(np.max(np.abs(a[3]))) if len(a) > 3 else float(np.max(np.abs(k["d"])))
+        except Exception:  # noqa: BLE001
+            dn = float("nan")
+        act.ls_log.append((ev0, act.n_events, None if r is None else float(r), dn))
         return r
 
     def update_lbfgs_matrices(*a, **k):
